@@ -145,9 +145,10 @@ func (e *c15rEtcd) distinct() map[string]bool {
 }
 
 type c15rConn struct {
-	mu     sync.Mutex
-	states [][]string
-	errs   int
+	mu      sync.Mutex
+	onFirst func() // runs inside the first UpdateState call, after the state was recorded
+	states  [][]string
+	errs    int
 }
 
 func (c *c15rConn) UpdateState(s resolver.State) error {
@@ -158,7 +159,12 @@ func (c *c15rConn) UpdateState(s resolver.State) error {
 	sort.Strings(addrs)
 	c.mu.Lock()
 	c.states = append(c.states, addrs)
+	first := len(c.states) == 1
+	hook := c.onFirst
 	c.mu.Unlock()
+	if first && hook != nil {
+		hook() // a registry change that lands while the resolver is still being built
+	}
 	return nil
 }
 func (c *c15rConn) ReportError(error)                       { c.mu.Lock(); c.errs++; c.mu.Unlock() }
@@ -248,6 +254,28 @@ func TestVerifC15ResolverState(t *testing.T) {
 		cc := &c15rConn{}
 		b := &discovBuilder{}
 		ops = append(ops, "build")
+		duringBuild, hookFailed := idx%2 == 0, false
+		if duringBuild {
+			// While Build is pushing its first state, a publisher registers/expires: the event
+			// is delivered through the watch and processed completely (progress handshake)
+			// before that first UpdateState returns.
+			cc.onFirst = func() {
+				if !vk.WaitUntil(c15rWatchdog, func() bool { return e.watchCount() >= 1 }) {
+					hookFailed = true
+					return
+				}
+				ops = append(ops, "during-first-UpdateState:")
+				ev := change()
+				ch := e.lastWatch()
+				e.mu.Lock()
+				rev := e.rev
+				e.mu.Unlock()
+				if !c15rSend(ch, clientv3.WatchResponse{Header: etcdserverpb.ResponseHeader{Revision: rev}, Events: []*clientv3.Event{ev}}) ||
+					!c15rSend(ch, clientv3.WatchResponse{Header: etcdserverpb.ResponseHeader{Revision: rev}}) {
+					hookFailed = true
+				}
+			}
+		}
 		var err error
 		if !vk.Within(c15rWatchdog, func() {
 			_, err = b.Build(resolver.Target{URL: url.URL{Scheme: DiscovSchema, Host: strings.Join(hosts, EndpointSep), Path: "/" + svc}}, cc, resolver.BuildOptions{})
@@ -306,7 +334,15 @@ func TestVerifC15ResolverState(t *testing.T) {
 			m.Inconclusive("case %d: no Watch call after Build", idx)
 			return
 		}
-		if !check("after-build", -1, nil) {
+		if hookFailed {
+			m.Inconclusive("case %d: the change during Build could not be delivered", idx)
+			return
+		}
+		phase0 := "after-build"
+		if duringBuild {
+			phase0 = "change-during-build"
+		}
+		if !check(phase0, -1, nil) {
 			failed = true
 		}
 		watch := e.lastWatch()
